@@ -269,6 +269,66 @@ def run(F, rep):
     from engines import rule_visit_all
     rule_visit_all(F, rep, 'C19.Y1', lambda g: g.file.endswith(('/utilities.cpp', '/model.cpp')), 10, 'utilities.cpp and model.cpp')
 
+    # ------------------------------------------------------------------ I6: every equivalence is looked at unless both flags are already known
+    rep.rule('C19.I6', 'publicAndOrPrivateInterfaceTypeRequired looks at EVERY equivalence of the variable: the only reason to stop early is that both flags are already set (or a failure is returned) - '
+                       'an equivalence that is not reachable at all must make the function fail wherever it stands in the list, so "nothing more to learn" shortcuts that depend on anything else skip the error')
+    from engines import value_of as _vo19, _decompose as _dc19
+    lp19 = [l for l in pp.walk() if l.get('k') == 'For' and 'equivalentVariableCount' in render(role(l, 'cond'))]
+    if len(lp19) != 1:
+        raise AnalysisBroken('publicAndOrPrivateInterfaceTypeRequired: loop over the equivalences not found (%d)' % len(lp19))
+    tmp19 = []
+    _dc19(role(lp19[0], 'cond'), True, tmp19)
+    extra19 = []
+    for c_, t_ in tmp19:
+        if c_.get('k') == 'Bin' and c_.get('op') in ('&&',) and t_:
+            continue      # a true conjunction has been split into its conjuncts
+        txt = render(c_)
+        if 'equivalentVariableCount' in txt:
+            continue
+        # the admissible stop: both members of the result are set
+        mems = {m_.get('n') for m_ in walk(c_) if m_.get('k') == 'Member'}
+        others = [x for x in walk(c_) if x.get('k') == 'Ref' and x.get('dk') in ('local', 'parm') and not (x.get('t') or '').startswith(('std::pair', 'libcellml::', 'const std::pair')) ]
+        inner = c_
+        whole_and = inner.get('k') == 'Bin' and inner.get('op') == '&&' and all(x.get('k') in ('Member', 'Paren') or True for x in inner.get('c', []))
+        ok_ = (not t_) and len(mems) == 2 and not any(x.get('k') == 'Call' and not x.get('opc') for x in walk(c_)) and not any(x.get('k') == 'Bin' and x.get('op') == '||' for x in walk(c_)) and not others
+        if not ok_:
+            extra19.append(('' if t_ else '!') + '(' + txt[:60] + ')')
+    early19 = [x for x in walk(role(lp19[0], 'body')) if x.get('k') in ('Break', 'Continue')]
+    rep.check(not extra19 and not early19, 'C19.I6', 'loop over the equivalences', pp.where(lp19[0]), 'the loop over the equivalences of the variable also stops (or skips) on %s: an unreachable equivalence further down the list is never examined' % (extra19 or [x['k'].lower() for x in early19]),
+              'stops early only when both flags are set')
+    # hasUnlinkedUnits() answers what linkUnits() would change: its verdict comes from the walk over the variables' units alone
+    rep.rule('C19.U1', 'Model::hasUnlinkedUnits() is the question linkUnits() answers: it is true only because traverseComponentTreeForUnlinkedUnits found a variable whose units are not the model\'s; '
+                       'any other source of `true` (say, a units definition that references a missing units) leaves the model "unlinked" although linkUnits() succeeded and every variable holds the model\'s own units')
+    hu = F.fn1('libcellml::Model::hasUnlinkedUnits')
+    srcs19 = []
+    rl19 = set()
+    for r_ in hu.walk():
+        if r_.get('k') == 'Return' and r_.get('c'):
+            e_ = r_['c'][0]
+            if e_.get('k') == 'Ref' and e_.get('dk') == 'local':
+                rl19.add(e_['d'])
+            elif not (e_.get('k') == 'Bool' and not e_.get('v')):
+                srcs19.append(e_)
+    for a_ in hu.walk():
+        c_ = a_.get('c', [])
+        if a_.get('k') == 'Var' and a_.get('d') in rl19 and c_:
+            srcs19.append(c_[0])
+        elif a_.get('k') == 'Bin' and a_.get('op') == '=' and c_ and c_[0].get('k') == 'Ref' and c_[0].get('d') in rl19:
+            srcs19.append(c_[1])
+    bad19 = []
+    for e_ in srcs19:
+        e2 = e_
+        while e2.get('k') in ('Paren', 'Cast') and len(e2.get('c', [])) == 1:
+            e2 = e2['c'][0]
+        if e2.get('k') == 'Bool':
+            if e2.get('v'):
+                bad19.append('true')
+            continue
+        calls = {x.get('fn') for x in walk(e2) if x.get('k') == 'Call' and not x.get('opc')}
+        if not calls or not calls <= {'traverseComponentTreeForUnlinkedUnits'}:
+            bad19.append(render(e2)[:60])
+    rep.check(bool(srcs19) and not bad19, 'C19.U1', 'hasUnlinkedUnits|verdict', hu.where(), 'hasUnlinkedUnits can answer `%s`, which is not the verdict of the walk over the variables (what linkUnits() acts on)' % (bad19[:2]), 'verdict of traverseComponentTreeForUnlinkedUnits only')
+
     # ------------------------------------------------------------------ B1: who is whose parent is decided by identity
     rep.rule('C19.B1', 'the hierarchy predicates from which interface types are derived (isEntityChildOf, areEntitiesSiblings) decide by the identity of parents: nothing they call reaches a structural comparison (equals/doEquals). '
                        'The containment lookups of ComponentEntity fall back to equals() when the object itself is not a child, so "is a child of" asked through them is also true for a component that merely has a look-alike child, '
